@@ -298,7 +298,7 @@ def finish(driver, prop, tier, seed, chunks, t0, replay=False):
     for kid, h in known_hits.items():
         k = h["finding"]
         print(f"KNOWN-FINDING: property={prop} {k['id']} {k['what']} (hit {h['count']}x)")
-    if err:
+    if err and not new_violations and not unmet:
         print(f"BROKEN: evidence does not validate: {err}")
         return EXIT_BROKEN
     if new_violations:
